@@ -138,9 +138,16 @@ def run_framework(spec):
     c = mod[code]
     hh = c['HH']
     tf = c['TF']
-    hh.AlphaIncome = float(spec['alpha1'])
-    hh.AlphaFin = float(spec['alpha2'])
-    tf.TaxRate = float(spec['theta'])
+    if spec.get('params_as_exo'):
+        # the parameters given as (constant) exogenous series, as the bundled example scripts vary them over time
+        n_ = spec['T'] + 2
+        mod.AddExogenous('HH', 'AlphaIncome', [float(spec['alpha1'])] * n_)
+        hh.SetExogenous('AlphaFin', [float(spec['alpha2'])] * n_)
+        tf.SetExogenous('TaxRate', [float(spec['theta'])] * n_)
+    else:
+        hh.AlphaIncome = float(spec['alpha1'])
+        hh.AlphaFin = float(spec['alpha2'])
+        tf.TaxRate = float(spec['theta'])
     gov = c['TRE'] if model == 'PC' else c['GOV']
     by_code = bool(spec.get('exo_by_code'))
     if by_code:
@@ -201,6 +208,7 @@ def fw_case(draw):
     spec = draw(params(draw(st.sampled_from(['PC', 'SIM', 'SIMEX1']))))
     spec['book_start'] = draw(st.sampled_from([False, False, True]))
     spec['exo_by_code'] = draw(st.booleans())
+    spec['params_as_exo'] = draw(st.sampled_from([False, False, True]))
     return spec
 
 
